@@ -61,7 +61,12 @@ func (fr *Frame) callWith(in ssa.Instruction, c *ssa.CallCommon, recv Value, arg
 		}
 		return s.callFunc(f.Fn, args, where)
 	case *OpaqueV:
-		return s.unknownCall("func value", args, resultTypes(c.Signature()), where)
+		s.logEvent("call:func-value", f, args...)
+		var out []Value
+		for i, t := range resultTypes(c.Signature()) {
+			out = append(out, s.symValue(t, fmt.Sprintf("funcvalue.ret%d", i)))
+		}
+		return out
 	}
 	unsup("call of %T", recv)
 	return nil
@@ -97,6 +102,7 @@ func (s *State) callFunc(fn *ssa.Function, args []Value, where string, closure .
 			}
 			e.Rets = res
 		}
+		s.assumeResultConvention(fn.Signature, res)
 		s.log = append(s.log, e)
 		return res
 	}
@@ -180,6 +186,23 @@ func lastSeg(n string) string {
 func (s *State) invoke(iv *IfaceV, static types.Type, m *types.Func, args []Value, where string, rts []types.Type) []Value {
 	s.check("safety:nil@"+where, Ne(iv.Type, Const(32, 0)))
 	full := types.TypeString(static, nil) + "." + m.Name()
+	if short := shortType(static) + "." + m.Name(); s.pure == 0 && s.ghostlog[short] {
+		var res []Value
+		for i, t := range rts {
+			res = append(res, s.symValue(t, fmt.Sprintf("%s.ret%d", m.Name(), i)))
+		}
+		e := LogEntry{Callee: short, Target: iv, Args: args, Arr: &ArrZero{W: 8}, Off: Const(64, 0), N: Const(64, 0), RetN: Const(64, 0), Err: s.zeroValue(errorType()), Rets: res}
+		if len(res) > 0 {
+			if ev, ok := res[len(res)-1].(*IfaceV); ok {
+				e.Err = ev
+			}
+		}
+		if sig, ok := m.Type().(*types.Signature); ok {
+			s.assumeResultConvention(sig, res)
+		}
+		s.log = append(s.log, e)
+		return res
+	}
 	callConcrete := func(tid int) []Value {
 		ty := typeByID[tid]
 		if ty == nil {
@@ -551,6 +574,11 @@ func (s *State) evalModifies1(c *Clause, v Value) *Region {
 			return nil
 		}
 		return &Region{Obj: o, Off: x.Off, Len: x.Len}
+	case *MapV:
+		if x.Obj == nil {
+			return nil
+		}
+		return &Region{Obj: x.Obj, Whole: true}
 	case *OpaqueV:
 		if x.Kind == "ghostRegion" {
 			return &Region{Ghost: x.Aux["name"].(*StringV).litOr("")}
@@ -613,6 +641,9 @@ func (s *State) havocValue(cur Value, t types.Type, name string) Value {
 	}
 	if av, ok := cur.(*ArrayV); ok && av.Arr != nil {
 		return &ArrayV{Arr: &ArrVar{Name: s.freshName(name), W: av.Arr.ElemW()}, N: av.N, Elem: av.Elem}
+	}
+	if mc, ok := cur.(*MapContents); ok {
+		return &MapContents{KeyT: mc.KeyT, ElemT: mc.ElemT, Base: s.freshName(name)}
 	}
 	return s.symValue(t, name)
 }
@@ -727,4 +758,26 @@ func argObj(v Value) *Obj {
 		return x.object()
 	}
 	return nil
+}
+
+// assumeResultConvention: a recorded (not executed) call returning (x, error) returns a non-nil x when the
+// error is nil (Go convention; listed among the assumptions).
+func (s *State) assumeResultConvention(sig *types.Signature, res []Value) {
+	n := len(res)
+	if n < 2 || !isErrorType(sig.Results().At(n-1).Type()) {
+		return
+	}
+	errv, ok := res[n-1].(*IfaceV)
+	if !ok {
+		return
+	}
+	noErr := Eq(errv.Type, Const(32, 0))
+	for _, r := range res[:n-1] {
+		switch x := r.(type) {
+		case *PtrV:
+			s.assume(Implies(noErr, Not(x.Nil)))
+		case *IfaceV:
+			s.assume(Implies(noErr, Ne(x.Type, Const(32, 0))))
+		}
+	}
 }
